@@ -750,4 +750,33 @@ mod tests {
         let spans: Vec<_> = it.iter().map(|c| c[0].unwrap()).collect();
         assert_eq!(spans, vec![(0, 0), (1, 3), (4, 4)]);
     }
+
+    /// Self-check of the oracle: on the syntax shared with the regex crate (outside the class with
+    /// disputed loop semantics) the reference matcher agrees with regex::Regex on spans and groups.
+    #[test]
+    fn agrees_with_regex_crate_on_common_syntax() {
+        let cfg = crate::gen::common_cfg();
+        let pats: Vec<Node> = crate::gen::dedup_by_print(crate::gen::trees_upto(&cfg, 3)).into_iter().filter(|n| !n.has_f1()).collect();
+        let texts = crate::gen::text_set(&crate::gen::SIGMA5, 3, 0);
+        let mut compared = 0u64;
+        for n in &pats {
+            let pat = n.to_pattern();
+            let Ok(rr) = regex::Regex::new(&pat) else { continue };
+            let prog = compile(n);
+            for t in &texts {
+                for from in t.char_indices().map(|(i, _)| i).chain(std::iter::once(t.len())) {
+                    let (r, _) = search(&prog, t, from, false);
+                    let want = rr.captures_at(t, from).map(|c| c.iter().map(|m| m.map(|m| (m.start(), m.end()))).collect::<Vec<_>>());
+                    let got = match r {
+                        RefResult::Match(c) => Some(c),
+                        RefResult::NoMatch => None,
+                        RefResult::Budget => continue,
+                    };
+                    assert_eq!(got, want, "pattern {:?} text {:?} from {}", pat, t, from);
+                    compared += 1;
+                }
+            }
+        }
+        assert!(compared > 500_000, "compared only {}", compared);
+    }
 }
